@@ -13,7 +13,8 @@
   * `WItem.ib`       — the initial byte of the encoding of a (valid) tree.
 -/
 import Minicbor.Lemmas.Accessors
-import Minicbor.Lemmas.TotalAcc
+import Minicbor.Lemmas.SkipLocal
+import Minicbor.Lemmas.C04Stable
 import Minicbor.Wire
 import Minicbor.Float
 
@@ -219,32 +220,26 @@ theorem encW_cons (w : WItem) (hv : w.Valid) : ∃ tl, encW w = u8 (ib w) :: tl 
 
 /-! ### the class of initial bytes an accessor can succeed on -/
 
-def accepts : Acc → Nat → Bool
-  | .bool, n => n == 244 || n == 245
-  | .int t, n => n ≤ 27 || (t.neg && 32 ≤ n && n ≤ 59)
-  | .f16, n => n == 249
-  | .f32 h, n => (h && n == 249) || n == 250
-  | .f64 h, n => (h && n == 249) || n == 250 || n == 251
+def accepts : Acc → Nat → Prop
+  | .bool, n => n = 244 ∨ n = 245
+  | .int t, n => n ≤ 27 ∨ (t.neg = true ∧ 32 ≤ n ∧ n ≤ 59)
+  | .f16, n => n = 249
+  | .f32 h, n => (h = true ∧ n = 249) ∨ n = 250
+  | .f64 h, n => (h = true ∧ n = 249) ∨ n = 250 ∨ n = 251
   | .char, n => n ≤ 27
-  | .bytes, n => 64 ≤ n && n ≤ 91
-  | .str, n => 96 ≤ n && n ≤ 123
-  | .bytesIter, n => (64 ≤ n && n ≤ 91) || n == 95
-  | .strIter, n => (96 ≤ n && n ≤ 123) || n == 127
-  | .array, n => (128 ≤ n && n ≤ 155) || n == 159
-  | .map, n => (160 ≤ n && n ≤ 187) || n == 191
-  | .tag, n => 192 ≤ n && n ≤ 219
-  | .null, n => n == 246
-  | .undefined, n => n == 247
-  | .simple, n => (224 ≤ n && n ≤ 243) || n == 248
+  | .bytes, n => 64 ≤ n ∧ n ≤ 91
+  | .str, n => 96 ≤ n ∧ n ≤ 123
+  | .bytesIter, n => (64 ≤ n ∧ n ≤ 91) ∨ n = 95
+  | .strIter, n => (96 ≤ n ∧ n ≤ 123) ∨ n = 127
+  | .array, n => (128 ≤ n ∧ n ≤ 155) ∨ n = 159
+  | .map, n => (160 ≤ n ∧ n ≤ 187) ∨ n = 191
+  | .tag, n => 192 ≤ n ∧ n ≤ 219
+  | .null, n => n = 246
+  | .undefined, n => n = 247
+  | .simple, n => (224 ≤ n ∧ n ≤ 243) ∨ n = 248
 
 theorem ite_run {α : Type} (c : Prop) [Decidable c] (f g : Dec α) (x : Bytes) :
     (if c then f else g) x = if c then f x else g x := by split <;> rfl
-
-theorem u8_beq_lit (b : UInt8) (k : Nat) (hk : k < 256) : (b == UInt8.ofNat k) = (b.toNat == k) := by
-  rw [Bool.eq_iff_iff]; simp only [beq_iff_eq]
-  constructor
-  · intro h; subst h; rw [UInt8.toNat_ofNat']; omega
-  · intro h; rw [← UInt8.toNat_inj, UInt8.toNat_ofNat']; omega
 
 /-- `unsigned` succeeds only on additional information 0..27. -/
 theorem unsigned_ok_le (b : UInt8) (bs : Bytes) (n : Nat) (r : Bytes) (h : unsigned b bs = .ok n r) :
@@ -258,6 +253,16 @@ theorem unsigned_ok_le (b : UInt8) (bs : Bytes) (n : Nat) (r : Bytes) (h : unsig
     rw [if_neg (by omega), if_neg (by omega), if_neg (by omega), if_neg (by omega), if_neg (by omega)] at h
     exact typeMismatch_not_ok _ _ _ _ h
 
+/-- inversion of a successful bind (local copy: Lemmas/TotalBase.lean cannot be imported here, it
+    pulls in TokenBasic, which clashes with SkipExact downstream). -/
+theorem bind_ok {α β : Type} {m : Dec α} {f : α → Dec β} {bs : Bytes} {b : β} {r : Bytes}
+    (h : (m >>= f) bs = .ok b r) : ∃ a r', m bs = .ok a r' ∧ f a r' = .ok b r := by
+  rw [Dec.bind_run] at h
+  cases hmb : m bs with
+  | ok a r' => rw [hmb] at h; exact ⟨a, r', rfl, h⟩
+  | err e r' => rw [hmb] at h; cases h
+  | panic => rw [hmb] at h; cases h
+
 theorem nm {α : Type} {b : UInt8} {bs : Bytes} {v : α} {r : Bytes}
     (h : (typeMismatch b : Dec α) bs = .ok v r) : False :=
   typeMismatch_not_ok _ _ _ _ h
@@ -266,16 +271,16 @@ theorem infoOf_toNat (b : UInt8) : (infoOf b).toNat = b.toNat % 32 := by
   unfold infoOf; rw [u8_toNat_mod]; have := b.toNat_lt; omega
 
 theorem bool_acc (b : UInt8) (tl : Bytes) (v r) (h : Dec.bool (b :: tl) = .ok v r) :
-    accepts .bool b.toNat = true := by
+    accepts .bool b.toNat := by
   simp only [Dec.bool, Dec.bind_run, Dec.read_cons] at h
   split at h
-  · rename_i hb; simp at hb; subst hb; rfl
+  · rename_i hb; simp at hb; subst hb; exact .inl rfl
   · split at h
-    · rename_i hb; simp at hb; subst hb; rfl
+    · rename_i hb; simp at hb; subst hb; exact .inr rfl
     · exact (nm h).elim
 
 theorem int_acc (t) (b : UInt8) (tl : Bytes) (v r) (h : Dec.intAcc t (b :: tl) = .ok v r) :
-    accepts (.int t) b.toNat = true := by
+    accepts (.int t) b.toNat := by
   simp only [Dec.intAcc, Dec.bind_run, Dec.read_cons] at h
   split at h
   · simp [accepts, *]
@@ -284,26 +289,26 @@ theorem int_acc (t) (b : UInt8) (tl : Bytes) (v r) (h : Dec.intAcc t (b :: tl) =
     · exact (nm h).elim
 
 theorem f16_acc (b : UInt8) (tl : Bytes) (v r) (h : Dec.f16 (b :: tl) = .ok v r) :
-    accepts .f16 b.toNat = true := by
+    accepts .f16 b.toNat := by
   simp only [Dec.f16, Dec.bind_run, Dec.read_cons] at h
   split at h
   · exact (nm h).elim
   · rename_i hb; simp at hb; subst hb; rfl
 
 theorem f32_acc (hf : Bool) (b : UInt8) (tl : Bytes) (v r) (h : Dec.f32 hf (b :: tl) = .ok v r) :
-    accepts (.f32 hf) b.toNat = true := by
+    accepts (.f32 hf) b.toNat := by
   simp only [Dec.f32, Dec.bind_run, Dec.current_cons] at h
   split at h
-  · rename_i hb; simp at hb; obtain ⟨rfl, rfl⟩ := hb; rfl
+  · rename_i hb; simp at hb; obtain ⟨rfl, rfl⟩ := hb; exact .inl ⟨rfl, rfl⟩
   · split at h
     · rename_i hb; simp at hb; subst hb; simp [accepts]
     · exact (nm h).elim
 
 theorem f64_acc (hf : Bool) (b : UInt8) (tl : Bytes) (v r) (h : Dec.f64 hf (b :: tl) = .ok v r) :
-    accepts (.f64 hf) b.toNat = true := by
+    accepts (.f64 hf) b.toNat := by
   simp only [Dec.f64, Dec.bind_run, Dec.current_cons] at h
   split at h
-  · rename_i hb; simp at hb; obtain ⟨rfl, rfl⟩ := hb; rfl
+  · rename_i hb; simp at hb; obtain ⟨rfl, rfl⟩ := hb; exact .inl ⟨rfl, rfl⟩
   · split at h
     · rename_i hb; simp at hb; subst hb; simp [accepts]
     · split at h
@@ -311,31 +316,31 @@ theorem f64_acc (hf : Bool) (b : UInt8) (tl : Bytes) (v r) (h : Dec.f64 hf (b ::
       · exact (nm h).elim
 
 theorem char_acc (b : UInt8) (tl : Bytes) (v r) (h : Dec.char (b :: tl) = .ok v r) :
-    accepts .char b.toNat = true := by
+    accepts .char b.toNat := by
   unfold Dec.char at h
-  obtain ⟨n, r', hu, _⟩ := bind_ok_inv h
+  obtain ⟨n, r', hu, _⟩ := bind_ok h
   have := int_acc _ _ _ _ _ hu
   simpa [accepts, IntTy.u32] using this
 
 theorem bytes_acc (b : UInt8) (tl : Bytes) (v r) (h : Dec.bytes (b :: tl) = .ok v r) :
-    accepts .bytes b.toNat = true := by
+    accepts .bytes b.toNat := by
   simp only [Dec.bytes, Dec.bind_run, Dec.read_cons] at h
   split at h
   · exact (nm h).elim
   · rename_i hb
-    obtain ⟨n, r', hu, _⟩ := bind_ok_inv h
+    obtain ⟨n, r', hu, _⟩ := bind_ok h
     have h1 := unsigned_ok_le _ _ _ _ hu
     rw [infoOf_toNat] at h1
     simp [majorOf] at hb
     simp [accepts]; omega
 
 theorem str_acc (b : UInt8) (tl : Bytes) (v r) (h : Dec.str (b :: tl) = .ok v r) :
-    accepts .str b.toNat = true := by
+    accepts .str b.toNat := by
   simp only [Dec.str, Dec.bind_run, Dec.read_cons] at h
   split at h
   · exact (nm h).elim
   · rename_i hb
-    obtain ⟨n, r', hu, _⟩ := bind_ok_inv h
+    obtain ⟨n, r', hu, _⟩ := bind_ok h
     have h1 := unsigned_ok_le _ _ _ _ hu
     rw [infoOf_toNat] at h1
     simp [majorOf] at hb
@@ -358,7 +363,7 @@ theorem stringIter_acc (text : Bool) (b : UInt8) (tl : Bytes) (v r)
         rw [infoOf_toNat] at this
         have e : (31 : UInt8).toNat = 31 := rfl
         simp; omega
-      · obtain ⟨n, r', hu, _⟩ := bind_ok_inv h
+      · obtain ⟨n, r', hu, _⟩ := bind_ok h
         have h1 := unsigned_ok_le _ _ _ _ hu
         rw [infoOf_toNat] at h1
         simp; omega
@@ -378,13 +383,13 @@ theorem container_acc (M : Nat) (b : UInt8) (tl : Bytes) (v r)
       have := congrArg UInt8.toNat h31
       rw [infoOf_toNat] at this
       exact .inr this
-    · obtain ⟨n, r', hu, _⟩ := bind_ok_inv h
+    · obtain ⟨n, r', hu, _⟩ := bind_ok h
       have h1 := unsigned_ok_le _ _ _ _ hu
       rw [infoOf_toNat] at h1
       exact .inl h1
 
 theorem tag_acc (b : UInt8) (tl : Bytes) (v r) (h : Dec.tag (b :: tl) = .ok v r) :
-    accepts .tag b.toNat = true := by
+    accepts .tag b.toNat := by
   simp only [Dec.tag, Dec.bind_run, Dec.read_cons] at h
   split at h
   · exact (nm h).elim
@@ -395,21 +400,21 @@ theorem tag_acc (b : UInt8) (tl : Bytes) (v r) (h : Dec.tag (b :: tl) = .ok v r)
     simp [accepts]; omega
 
 theorem null_acc (b : UInt8) (tl : Bytes) (v r) (h : Dec.null (b :: tl) = .ok v r) :
-    accepts .null b.toNat = true := by
+    accepts .null b.toNat := by
   simp only [Dec.null, Dec.bind_run, Dec.read_cons] at h
   split at h
   · rename_i hb; simp at hb; subst hb; rfl
   · exact (nm h).elim
 
 theorem undefined_acc (b : UInt8) (tl : Bytes) (v r) (h : Dec.undefined (b :: tl) = .ok v r) :
-    accepts .undefined b.toNat = true := by
+    accepts .undefined b.toNat := by
   simp only [Dec.undefined, Dec.bind_run, Dec.read_cons] at h
   split at h
   · rename_i hb; simp at hb; subst hb; rfl
   · exact (nm h).elim
 
 theorem simple_acc (b : UInt8) (tl : Bytes) (v r) (h : Dec.simple (b :: tl) = .ok v r) :
-    accepts .simple b.toNat = true := by
+    accepts .simple b.toNat := by
   simp only [Dec.simple, Dec.bind_run, Dec.read_cons] at h
   split at h
   · rename_i hb; simp at hb; simp [accepts, hb]
@@ -419,28 +424,11 @@ theorem simple_acc (b : UInt8) (tl : Bytes) (v r) (h : Dec.simple (b :: tl) = .o
 
 /-- **an accessor can only succeed on an initial byte of its class.** -/
 theorem run_ok_accepts (a : Acc) (bs : Bytes) (v : a.Out) (r : Bytes) (h : a.run bs = .ok v r) :
-    ∃ b tl, bs = b :: tl ∧ accepts a b.toNat = true := by
+    ∃ b tl, bs = b :: tl ∧ accepts a b.toNat := by
   cases bs with
   | nil =>
     exfalso
-    have e : a.run [] = .err .eoi [] := by
-      cases a
-      case bool => exact EoiNil.bool
-      case int t => exact EoiNil.intAcc t
-      case f16 => exact EoiNil.f16
-      case f32 hf => exact EoiNil.f32 hf
-      case f64 hf => exact EoiNil.f64 hf
-      case char => exact EoiNil.char
-      case bytes => exact EoiNil.bytes
-      case str => exact EoiNil.str
-      case bytesIter => exact EoiNil.bytesIter
-      case strIter => exact EoiNil.strIter
-      case array => exact EoiNil.array
-      case map => exact EoiNil.map
-      case tag => exact EoiNil.tag
-      case null => exact EoiNil.null
-      case undefined => exact EoiNil.undefined
-      case simple => exact EoiNil.simple
+    have e : a.run [] = .err .eoi [] := by cases a <;> rfl
     rw [e] at h; cases h
   | cons b tl =>
     refine ⟨b, tl, rfl, ?_⟩
@@ -461,5 +449,51 @@ theorem run_ok_accepts (a : Acc) (bs : Bytes) (v : a.Out) (r : Bytes) (h : a.run
     case null => exact null_acc _ _ _ _ h
     case undefined => exact undefined_acc _ _ _ _ h
     case simple => exact simple_acc _ _ _ _ h
+
+/-- no accessor panics (C02; proved again here for the accessors whose `NoPanic` lemma lives in
+    Lemmas/TokenBasic.lean, which cannot be imported together with SkipExact). -/
+theorem Acc.run_noPanic (a : Acc) : NoPanic a.run := by
+  have h1 := @NoPanic.typeMismatch
+  have h2 := NoPanic.unsigned
+  have hf16 : NoPanic Dec.f16 := by unfold Dec.f16; nopanic
+  have hf32 : ∀ hf, NoPanic (Dec.f32 hf) := by intro hf; unfold Dec.f32; nopanic
+  cases a
+  case bool => unfold Acc.run Dec.bool; nopanic
+  case int t => exact NoPanic.intAcc t
+  case f16 => exact hf16
+  case f32 hf => exact hf32 hf
+  case f64 hf => have := hf32 hf; unfold Acc.run Dec.f64; nopanic
+  case char => have := NoPanic.intAcc .u32; unfold Acc.run Dec.char; nopanic
+  case bytes => exact NoPanic.bytes
+  case str => exact NoPanic.str
+  case bytesIter => exact NoPanic.stringIter _
+  case strIter => exact NoPanic.stringIter _
+  case array => exact NoPanic.container _
+  case map => exact NoPanic.container _
+  case tag => unfold Acc.run Dec.tag; nopanic
+  case null => unfold Acc.run Dec.null; nopanic
+  case undefined => unfold Acc.run Dec.undefined; nopanic
+  case simple => unfold Acc.run Dec.simple; nopanic
+
+/-- every accessor is stable under extension of its input: only an end-of-input outcome can
+    change when bytes are appended. -/
+theorem Acc.run_stable (a : Acc) : Stable a.run := by
+  cases a
+  case bool => exact Stable.bool
+  case int t => exact Stable.intAcc t
+  case f16 => exact Stable.f16
+  case f32 hf => exact Stable.f32 hf
+  case f64 hf => exact Stable.f64 hf
+  case char => exact Stable.char
+  case bytes => exact Stable.bytes
+  case str => exact Stable.str
+  case bytesIter => exact Stable.bytesIter
+  case strIter => exact Stable.strIter
+  case array => exact Stable.array
+  case map => exact Stable.map
+  case tag => exact Stable.tag
+  case null => exact Stable.null
+  case undefined => exact Stable.undefined
+  case simple => exact Stable.simple
 
 end Minicbor.C04
